@@ -98,7 +98,7 @@ def gen_seq(rng, profile, length, dups=True):
             ops.append(["seth", i, fresh_hash()])
         elif u < padd + 0.60:
             ops.append(["look", gen_hash(rng)])
-        elif u < padd + 0.62 and not tree:
+        elif u < padd + 0.62:
             ops.append(["rmall"]); n = 0; nvar = 0
         elif u < padd + 0.68:
             z = rng.choice([-1, n, n, max(0, n - 1), rng.randint(0, max(0, n))])
@@ -116,7 +116,8 @@ def gen_seq(rng, profile, length, dups=True):
 class Spec:
     """The simulation as a plain list. Each entry: [hash, pid, y_is_nan]."""
     def __init__(self, tree):
-        self.ps = []; self.nact = -1; self.nvar = 0; self.tree = tree
+        # tree: tree_root != NULL ; cfg: a tree code is selected (every add puts the particle into the tree, allocating the root)
+        self.ps = []; self.nact = -1; self.nvar = 0; self.tree = tree; self.cfg = tree
 
     def refused(self, keep):
         return self.nvar != 0 or bool(keep and self.tree)
@@ -146,6 +147,7 @@ class Spec:
         exp_code = None
         if k == "add":
             self.ps.append([hval(op[1]), op[2], False]); exp_code = (9, 0)
+            self.tree = self.tree or self.cfg
         elif k == "rmi":
             i, keep = op[1], op[2]
             if 0 <= i < len(self.ps) and not self.refused(keep):
@@ -178,7 +180,7 @@ class Spec:
             else:
                 exp_code = (3, cands)
         elif k == "rmall":
-            self.ps = []; self.nact = -1; self.nvar = 0; exp_code = (9, 0)
+            self.ps = []; self.nact = -1; self.nvar = 0; self.tree = False; exp_code = (9, 0)      # reb_tree_delete
         elif k == "nact":
             self.nact = op[1]; exp_code = (9, 0)
         elif k == "nvar":
@@ -342,6 +344,10 @@ def _driver(mode):
                             else [q[1] for q in spec.ps if q[0] == hval(op[1])] if t == "rmh" else [])
                     if len(ev) != 1 or ev[0][0] not in cand:
                         oracle = {"op": k, "msg": "callback: free_particle_ap events %s, expected exactly one for particle id in %s" % (ev, cand), "opv": op}
+                elif t == "rmall":
+                    if [e[0] for e in ev] != [q[1] for q in spec.ps]:
+                        oracle = {"op": k, "msg": "callback: remove-all called free_particle_ap for %s, expected once per particle in order %s"
+                                  % ([e[0] for e in ev], [q[1] for q in spec.ps]), "opv": op}
                 elif ev:
                     oracle = {"op": k, "msg": "callback: free_particle_ap called %d times by an operation that removed nothing" % len(ev), "opv": op}
             if oracle is None:
@@ -750,7 +756,11 @@ def hybrid_check(ctx, libdir):
             ctx.obligation("searcher:C14 hybrid cases on the ASan+UBSan build", False, repr(ex)[-400:])
     # library-only oracle for the encounter map: removing a mapped particle drops its entry and renumbers the later ones
     for c, x in zip(cases, res):
-        act = (c["kind"] == "merc" and c["mode"] == 1) or (c["kind"] == "trace" and c["mode"] in (1, 3))
+        act = (c["kind"] == "merc" and c["mode"] == 1) or (c["kind"] == "trace" and c["mode"] == 1)
+        if c["kind"] == "trace" and c["mode"] == 3 and c["ops"] and (x["rows"][0][4] != c["emap"][:c["eN"]] or x["rows"][0][5] != c["eN"] or x["rows"][0][6] != c["eNact"]):
+            ctx.violation("trace_full_mode_removal_wraps_encounter_N", {"state": {k: c[k] for k in ("mode", "n0", "emap", "eN", "eNact")}, "op": c["ops"][0],
+                          "row": x["rows"][0]}, True, "in REB_TRACE_MODE_FULL an add/remove modified encounter_map / encounter_N / encounter_N_active")
+            break
         if act and c["ops"] and c["ops"][0][0] == "rmi" and x["rows"][0][0] == 1:
             live = c["emap"][:c["eN"]]; i0 = c["ops"][0][1]
             if i0 in live:
@@ -1088,7 +1098,7 @@ def run(ctx):
                        "; ".join("[%s]" % "; ".join("(%d, %s)" % (max(e[0], 0), "true" if e[1] else "false") for e in ev) for ev in r["cb"])))
         for o, row, ev in zip(sq["ops"], r["rows"], r["cb"]):
             want = 1 if (o[0] in ("rmi", "rmh") and row[0] == 1) else 0
-            if len(ev) != want and cb_bad is None:
+            if o[0] != "rmall" and len(ev) != want and cb_bad is None:
                 cb_bad = {"sequence": sq, "op": o, "callback_events": ev, "expected_calls": want}
     if cb_bad:
         ctx.violation("callback-count", cb_bad, True, "free_particle_ap was not called exactly once for a removed particle (or was called for a failed request)")
